@@ -97,7 +97,9 @@ def build():
     pf.props_safety = ["C13"]
     pf.replace_all_re(r"pub\(crate\) ", "", "R4", "visibility")
     str_shims(pf)
-    pf.replace_all_re(r"(\w+)\.parse\(\)\.ok\(\)", r"shim_str_parse_usize(\1)", "R2", why="str::parse::<usize>().ok() behind a shim (total)")
+    pf.replace_all_re(r"(\w+)\.parse\(\)\.ok\(\)", r"shim_str_parse_usize(\1)", "R2", why="str::parse::<usize>().ok() behind a shim (total)", min_count=0)
+    pf.replace_all_re(r"(\w+)\.parse::<usize>\(\)\.ok\(\)", r"shim_str_parse_usize(\1)", "R2", why="str::parse::<usize>().ok() behind a shim", min_count=0)
+    pf.replace_all_re(r"(\w+)\.parse::<u32>\(\)\.ok\(\)", r"shim_str_parse_u32(\1)", "R2", why="str::parse::<u32>().ok() behind a shim (the unsigned parsers accept the same strings; the narrower one fails on values that do not fit)", min_count=0)
     # the facts about the trimmed line are needed right after the early return
     m = re.search(r"return None;\s*\}", pf.orig)
     if not m:
